@@ -16,8 +16,7 @@ type Files struct {
 	Include map[string]string `json:"include,omitempty"`
 	Exclude map[string]string `json:"exclude,omitempty"`
 
-	// oneLine selects the other spelling of a file with affixes and exactly one entry (see InlineOpts.OneLine)
-	oneLine bool
+	oneLine bool // (unused since the collapse became a step of Inline)
 	// affixAsEntries reproduces finding F41 (see InlineOpts.AffixAsEntries)
 	affixAsEntries bool
 }
@@ -78,8 +77,8 @@ func lines(text string) []string {
 type InlineOpts struct {
 	Includes    bool
 	Definitions bool
-	// OneLine writes an include file that has prefixes or suffixes and exactly one plain entry as the single entry
-	// (?:prefix)(?:entry)(?:suffix) instead of a block with markers: the same plain reading, spelt without any marker.
+	// OneLine writes an include file that has prefixes or suffixes and plain entries only as the single entry
+	// (?:prefix)(?:e1|e2|..)(?:suffix) instead of a block with markers: the same plain reading, spelt without any marker.
 	OneLine bool
 	// AffixAsEntries is not the reading of the format but that of finding F41: the texts of prefix and suffix lines of
 	// wrapped include files count as entries, so exclusions and replacements apply to them. Used only to decide whether
@@ -221,16 +220,6 @@ func fileBody(name string, files *Files, depth int, defsOut map[string]string) (
 	if len(prefixes) == 0 && len(suffixes) == 0 {
 		return body, nil
 	}
-	if files.oneLine && len(body) == 1 && !strings.HasPrefix(body[0], "##!") {
-		e := "(?:" + body[0] + ")"
-		for i := len(prefixes) - 1; i >= 0; i-- {
-			e = "(?:" + prefixes[i] + ")" + e
-		}
-		for _, s := range suffixes {
-			e += "(?:" + s + ")"
-		}
-		return []string{e}, nil
-	}
 	// the texts of the prefix and suffix lines are not entries of the file: they carry a private tag until Inline
 	// has finished, so that neither an exclusion nor a replacement nor another line of the same text touches them
 	affixTag := affixTag
@@ -253,6 +242,50 @@ func fileBody(name string, files *Files, depth int, defsOut map[string]string) (
 }
 
 const affixTag = "\x01"
+
+// collapseWrappers rewrites every block that wraps an include file with affix lines and plain entries only (the
+// tagged affix texts make such a block unmistakable) as the single entry (?:prefix)(?:e1|e2|..)(?:suffix). It runs
+// after exclusions and pairs have been applied to the entries, innermost blocks first.
+func collapseWrappers(ls []string) []string {
+	for changed := true; changed; {
+		changed = false
+		for i := 0; i < len(ls) && !changed; i++ {
+			if ls[i] != "##!> assemble" {
+				continue
+			}
+			j := i + 1
+			var pre, body, suf []string
+			for j+1 < len(ls) && strings.HasPrefix(ls[j], affixTag) && ls[j+1] == "##!=>" {
+				pre = append(pre, ls[j][len(affixTag):])
+				j += 2
+			}
+			for j < len(ls) && !strings.HasPrefix(ls[j], "##!") && !strings.HasPrefix(ls[j], affixTag) {
+				body = append(body, ls[j])
+				j++
+			}
+			if j < len(ls) && ls[j] == "##!=>" && j+1 < len(ls) && strings.HasPrefix(ls[j+1], affixTag) {
+				j++
+				for j+1 < len(ls) && strings.HasPrefix(ls[j], affixTag) && ls[j+1] == "##!=>" {
+					suf = append(suf, ls[j][len(affixTag):])
+					j += 2
+				}
+			}
+			if j >= len(ls) || ls[j] != "##!<" || len(body) == 0 || len(pre)+len(suf) == 0 {
+				continue
+			}
+			e := "(?:" + strings.Join(body, "|") + ")"
+			for k := len(pre) - 1; k >= 0; k-- {
+				e = "(?:" + pre[k] + ")" + e
+			}
+			for _, x := range suf {
+				e += "(?:" + x + ")"
+			}
+			ls = append(append(append([]string{}, ls[:i]...), e), ls[j+1:]...)
+			changed = true
+		}
+	}
+	return ls
+}
 
 func include(line string, files *Files, depth int) ([]string, error) {
 	m := reInclude.FindStringSubmatch(line)
@@ -371,6 +404,9 @@ func Inline(program string, files *Files, o InlineOpts) (string, error) {
 		default:
 			out = append(out, l)
 		}
+	}
+	if o.OneLine {
+		out = collapseWrappers(out)
 	}
 	text := strings.ReplaceAll(strings.Join(out, "\n")+"\n", affixTag, "")
 	if o.Definitions {
